@@ -177,4 +177,89 @@ theorem undo_uses_same_resolver (E : Env) (ls : Oid → Tid → Option Record) (
     cases e
     rfl
 
+/-- the undo record of `_transactionalUndoRecord`: when it is a merge, it is the resolver's output on
+    (state written by the undone transaction, CURRENT state, state before the undone transaction);
+    when it is a copy, the resolver was not involved -/
+theorem undo_record_merged (E : Env) (k : Kind) (hist base : Hist) (cache : List ClassId) (oid : Oid)
+    (undone : Tid) (d : Record)
+    (h : (undoRecord E k hist base cache oid undone).out = .merged d) :
+    ∃ ct preData curData old m,
+      currentTid (viewOf k hist base) oid = some ct ∧ ct ≠ undone ∧
+      prevRecord (viewOf k hist base) oid undone = some preData ∧
+      loadSerialMapping (viewOf k hist base) oid ct = some curData ∧
+      loadSerialK k hist base oid undone = some old ∧
+      E.resolver preData.hdr.cls (loadState E.ci old.state) (loadState E.ci curData.state)
+        (loadState E.ci preData.state) = .ok m ∧
+      d = { hdr := preData.hdr, state := dumpState m } := by
+  unfold undoRecord at h
+  simp only at h
+  cases hc : currentTid (viewOf k hist base) oid with
+  | none => rw [hc] at h; simp at h
+  | some ct =>
+    cases hu : loadSerialMapping (viewOf k hist base) oid undone with
+    | none => rw [hc, hu] at h; simp at h
+    | some undoneData =>
+      rw [hc, hu] at h
+      simp only at h
+      split at h
+      · split at h <;> simp at h
+      · rename_i hne
+        cases hp : prevRecord (viewOf k hist base) oid undone with
+        | none => rw [hp] at h; simp at h
+        | some preData =>
+          cases hcur : loadSerialMapping (viewOf k hist base) oid ct with
+          | none => rw [hp, hcur] at h; simp at h
+          | some curData =>
+            rw [hp, hcur] at h
+            simp only at h
+            cases hr : (undoResolve E (loadSerialK k hist base) cache oid ct undone preData curData).out with
+            | error e => rw [hr] at h; simp at h
+            | ok d' =>
+              rw [hr] at h
+              simp only at h
+              injection h with h
+              subst h
+              obtain ⟨old, m, _, _, _, h4, h5, h6⟩ :=
+                ((undo_uses_same_resolver E (loadSerialK k hist base) cache oid ct undone preData curData d').1).1 hr
+              refine ⟨ct, preData, curData, old, m, rfl, ?_, rfl, hcur, h4, h5, h6⟩
+              intro he
+              exact hne (Or.inl he)
+
+theorem undo_record_copy (E : Env) (k : Kind) (hist base : Hist) (cache : List ClassId) (oid : Oid)
+    (undone : Tid) (d : Record)
+    (h : (undoRecord E k hist base cache oid undone).out = .copy d) :
+    prevRecord (viewOf k hist base) oid undone = some d ∧
+    (undoRecord E k hist base cache oid undone).call = none := by
+  unfold undoRecord at h ⊢
+  simp only at h ⊢
+  cases hc : currentTid (viewOf k hist base) oid with
+  | none => rw [hc] at h; simp at h
+  | some ct =>
+    cases hu : loadSerialMapping (viewOf k hist base) oid undone with
+    | none => rw [hc, hu] at h; simp at h
+    | some undoneData =>
+      rw [hc, hu] at h
+      simp only at h ⊢
+      split at h
+      · rename_i hcond
+        simp only [hcond, if_true]
+        cases hp : prevRecord (viewOf k hist base) oid undone with
+        | none => rw [hp] at h; simp at h
+        | some preData =>
+          rw [hp] at h
+          simp only at h ⊢
+          injection h with h
+          exact ⟨by rw [h], trivial⟩
+      · cases hp : prevRecord (viewOf k hist base) oid undone with
+        | none => rw [hp] at h; simp at h
+        | some preData =>
+          cases hcur : loadSerialMapping (viewOf k hist base) oid ct with
+          | none => rw [hp, hcur] at h; simp at h
+          | some curData =>
+            rw [hp, hcur] at h
+            simp only at h
+            cases hr : (undoResolve E (loadSerialK k hist base) cache oid ct undone preData curData).out with
+            | error e => rw [hr] at h; simp at h
+            | ok d' => rw [hr] at h; simp at h
+
 end Proofs.C10Props
